@@ -75,6 +75,7 @@ def rule_pool():
         ["multiple", "a", ["b", "c"]],
         ["multiple", "b", ["a", "a"]],
         ["multiple", "c", ["a", "m"]],
+        ["multiple", "d", []],                           # sub d by NULL
         ["ligature", [A, Bb], "c"],
         ["ligature", [A, Bb, C], "d"],
         ["ligature", [AB, C], "e"],                      # sub [a b] c by e
@@ -97,8 +98,12 @@ def rule_pool():
         ["ctx", [C], [A, Bb, C], [], [[0, _nested("subst", [["ligature", [A, Bb, C], "e"]])]]],  # sub c a' b' c' by e
         ["ctx", [A], [Bb], [C], [[0, _nested("subst", [["multiple", "b", ["d", "e"]]])]]],  # sub a b' c by d e
         ["ctx", [], [A], [A], [[0, _nested("alt", [["alternate", "a", ["b", "c"]]])]]],    # sub a' a from [b c]
+        ["ctx", [Bb], [A], [], [[0, _nested("alt", [["alternate", "a", ["d", "e"]]])]]],   # sub b a' from [d e]
+        ["ctx", [C], [Bb], [], [[0, _nested("subst", [["multiple", "b", ["a", "a"]]])]]],  # sub c b' by a a
         ["ctx", [], [A, Bb], [], [[0, _nested("subst", [["single", [["a", "b"]]]])], [1, _nested("subst", [["single", [["b", "c"]]]])]]],  # two lookups
         ["ctx", [], [A, Bb], [], [[1, _nested("subst", [["single", [["b", "a"]]]])]]],    # sub a' b' lookup X
+        ["ctx", [AB, Bb], [C], [], [[0, _nested("subst", [["single", [["c", "d"]]]])]]],   # sub [a b] b c' by d   (two backtrack positions, coverage based)
+        ["ctx", [], [C], [Bb, A], [[0, _nested("subst", [["single", [["c", "e"]]]])]]],    # sub c' b a by e   (two lookahead glyphs)
         ["ctx", [A], [Bb], [], []],                                                        # ignore sub a b'
         ["ctx", [], [Bb], [C], []],                                                        # ignore sub b' c
     ]]
@@ -152,6 +157,7 @@ def rule_pool():
         ["ctx", [], [AB], [BC], [[0, _nested("spos", [["spos", AB, [0, 0, -12, 0]]])]]],       # pos [a b]' -12 [b c]
         ["ctx", [], [A, Bb], [], [[0, _nested("pair", [["pair", "a", [0, 0, -10, 0], "b", None]])]]],  # pos a' lookup K b'
         ["ctx", [A], [["m"]], [], [[0, _nested("spos", [["spos", ["m"], [9, 9, 0, 0]]])]]],     # pos a m' <9 9 0 0>
+        ["ctx", [C], [Bb], [], [[0, _nested("spos", [["spos", Bb, [0, 0, 20, 0]]])]]],          # pos c b' 20
         ["ctx", [Bb], [Bb], [], []],                                                            # ignore pos b b'
     ]]
     return P
@@ -216,11 +222,17 @@ def lookup_ok(fam, rules):
             seen |= set(r[1])
         return True
     if fam == "pair":
-        kinds = [r[0] == "cpair" for r in rules]
+        kinds = [r[0] in ("cpair", "break") for r in rules]
         if kinds != sorted(kinds):  # specific and enumerated pairs precede class pairs
             return False
-        c1, c2 = [], []
+        # class pairs: inside one subtable the first classes must be equal or disjoint, and
+        # so must the second classes (what a class table can express); an explicit
+        # "subtable;" statement starts a new class table
+        c1, c2, pairs = [], [], set()
         for r in rules:
+            if r[0] == "break":
+                c1, c2, pairs = [], [], set()
+                continue
             if r[0] != "cpair":
                 continue
             for pool, s in ((c1, frozenset(r[1])), (c2, frozenset(r[3]))):
@@ -228,13 +240,10 @@ def lookup_ok(fam, rules):
                     if o != s and o & s:
                         return False
                 pool.append(s)
-        pairs = set()
-        for r in rules:
-            if r[0] == "cpair":
-                k = (frozenset(r[1]), frozenset(r[3]))
-                if k in pairs:
-                    return False
-                pairs.add(k)
+            k = (frozenset(r[1]), frozenset(r[3]))
+            if k in pairs:
+                return False
+            pairs.add(k)
         return True
     if fam == "curs":
         seen = set()
@@ -290,8 +299,23 @@ def partitions(stmts):
             else:
                 cur.append(s)
         groups.append(cur)
-        if all(len({f for f, _ in g}) == 1 and lookup_ok(g[0][0], [r for _, r in g]) for g in groups):
+        if not all(len({f for f, _ in g}) == 1 for g in groups):
+            continue
+        if all(lookup_ok(g[0][0], [r for _, r in g]) for g in groups):
             yield [(g[0][0], [r for _, r in g]) for g in groups]
+        # class pairs separated by an explicit subtable break (a different program: the
+        # first class table shadows the second for its first glyphs)
+        broken, any_break = [], False
+        for g in groups:
+            rules = []
+            for f, r in g:
+                if rules and r[0] == "cpair" and rules[-1][0] == "cpair":
+                    rules.append(["break"])
+                    any_break = True
+                rules.append(r)
+            broken.append((g[0][0], rules))
+        if any_break and all(lookup_ok(f, rules) for f, rules in broken):
+            yield broken
 
 
 def programs(nstmt, pool, flag_dev, lang_variants):
@@ -308,10 +332,12 @@ def programs(nstmt, pool, flag_dev, lang_variants):
             flagsets = [["0"] * k]
             for i in range(k):
                 for fl in flags_for(groups[i][0])[1:]:
+                    if flag_dev == 0 or (flag_dev == "im" and fl != "im"):
+                        continue
                     fs = ["0"] * k
                     fs[i] = fl
                     flagsets.append(fs)
-            if flag_dev >= 2 and k >= 2:
+            if flag_dev == 2 and k >= 2:
                 for combo in itertools.product(*[flags_for(g[0]) for g in groups]):
                     if sum(1 for c in combo if c != "0") >= 2:
                         flagsets.append(list(combo))
@@ -412,6 +438,8 @@ class Printer:
 
     def rule(self, fam, r):
         k = r[0]
+        if k == "break":
+            return ["subtable;"]
         if k == "single":
             src = [g for g, _ in r[1]]
             dst = [t for _, t in r[1]]
@@ -650,15 +678,19 @@ def spellings(prog):
     dev("blocks", place="blocks")
     dev("infeature", place="infeature")
     if len(lookups) > 1 and not lang:
-        dev("blocksrev", place="blocksrev")
         tabs = [l["fam"] in otlref.GSUB_FAMS for l in lookups]
-        if tabs.count(True) > 1 or tabs.count(False) > 1:
+        two = tabs.count(True) > 1 or tabs.count(False) > 1
+        if two:
             dev("twofeat", feat="two")
-            dev("twofeat-blocks", feat="two", place="blocks")
-            dev("revfeat", feat="rev")
+        if not flagged:
+            dev("blocksrev", place="blocksrev")
+            if two:
+                dev("twofeat-blocks", feat="two", place="blocks")
+                dev("revfeat", feat="rev")
     if fams & {"ctxsub", "ctxpos"}:
         dev("namedctx", ctx="named")
-        dev("namedctx-blocks", ctx="named", place="blocks")
+        if not flagged:
+            dev("namedctx-blocks", ctx="named", place="blocks")
     if flagged or fams & {"mkbase", "mkmk"} or "m" in mentioned(prog) or "n" in mentioned(prog):
         dev("gdef-inferred", gdef="inferred")
     if not lang and not flagged:
@@ -687,6 +719,26 @@ def all_rules(prog):
 
     for l in prog["lookups"]:
         visit(l)
+    return out
+
+
+def traits(prog):
+    """Structural traits of a program that name a narrow failing class in violation keys."""
+    out = []
+    for l in prog["lookups"]:
+        if l["fam"] != "ctxsub":
+            continue
+        seqs = []
+        for r in l["rules"]:
+            for _i, n in r[4]:
+                for q in n["rules"]:
+                    if q[0] == "ligature":
+                        seqs.append(sorted(subst_keys(q)))
+        for i in range(len(seqs)):
+            for j in range(len(seqs)):
+                if i != j and any(x != y and y[: len(x)] == x for x in seqs[i] for y in seqs[j]):
+                    if "inline-ligatures-one-prefix-of-other" not in out:
+                        out.append("inline-ligatures-one-prefix-of-other")
     return out
 
 
@@ -842,45 +894,59 @@ def fams_key(prog):
     return "+".join(l["fam"] for l in prog["lookups"])
 
 
+_W_COMMON = (
+    "substitution changed a string", "positioning changed a string", "flag changes result",
+    "language scope changes result", "alternate index 2 differs", "ligature over skipped mark", "mark attached", "cursive attached",
+    "nested lookup applied", "reverse substitution applied", "second glyph of pair skipped",
+    "spellings compile to different bytes", "context format 1", "context format 3", "class pair subtable",
+)
+
+
 class ShapeUnit(Unit):
     """programs x spellings x strings: HarfBuzz on compiled tables == reference."""
 
-    name = "shape"
-    rule = ("all abstract programs with <= N rule statements from the statement pool (N=2 quick, 3 on the reduced pool thorough), every cut into lookups, "
-            "flags {none, IgnoreMarks, MarkAttachmentType, UseMarkFilteringSet, RightToLeft} on one lookup (all combinations thorough), script/language scopes; "
-            "every spelling (plain / lookup blocks / blocks in feature / reversed references / two features / named classes, values, anchors / inline vs named contextual lookups / languagesystem forms / inferred GDEF); "
-            "every glyph string up to length L over the program's alphabet, languages dflt and TRK, alternate index 1 and 2: "
-            "HarfBuzz(glyphs, advances, offsets) == reference interpreter of the abstract rules; usMaxContext == reference; distinct = program with at least one string whose result differs from the identity")
-    required_witnesses = (
-        "substitution changed a string", "positioning changed a string", "lookup order matters", "flag changes result",
-        "language scope changes result", "alternate index 2 differs", "ligature over skipped mark", "mark attached", "cursive attached",
-        "nested lookup applied", "ignore rule blocked a match", "reverse substitution applied", "second glyph of pair skipped",
-        "spellings compile to different bytes", "context format 1", "context format 2", "context format 3", "class pair subtable",
-    )
     chunk = 24
+
+    def __init__(self, nstmt):
+        self.nstmt = nstmt
+        self.name = "shape-%d" % nstmt
+        self.tiers = ("quick", "thorough") if nstmt <= 2 else ("thorough",)
+        self.rule = (
+            "all abstract programs with exactly %d rule statement(s) from the %s statement pool, every cut into lookups, "
+            "lookup flags {none, IgnoreMarks, MarkAttachmentType, UseMarkFilteringSet, RightToLeft(cursive)} on one lookup%s, script/language scopes (language TRK with and without exclude_dflt); "
+            "every spelling (plain / lookup blocks / blocks in feature / reversed references / two features in both tag orders / named and range classes / short, full, named values / named anchors / inline vs named contextual lookups / languagesystem forms / inferred GDEF); "
+            "every glyph string up to length L over the program's alphabet, languages dflt and TRK, alternate index 1 and 2: "
+            "HarfBuzz(glyphs, advances, offsets) == reference interpreter of the abstract rules; usMaxContext == reference; "
+            "distinct = program with at least one string whose result differs from the identity"
+            % (nstmt, "reduced" if nstmt >= 3 else "full", " (every combination in the thorough tier)" if nstmt == 2 else " (IgnoreMarks only)" if nstmt >= 3 else ""))
+        w = list(_W_COMMON)
+        if nstmt >= 2:
+            w += ["lookup order matters", "ignore rule blocked a match", "explicit subtable break"]
+        if nstmt >= 3:
+            w = [x for x in w if x not in ("language scope changes result", "alternate index 2 differs", "explicit subtable break", "reverse substitution applied")]
+        self.required_witnesses = tuple(w)
 
     def setup(self, tier, seed):
         base_font_bytes()
 
     def plan(self, tier):
+        if self.nstmt >= 3:
+            return {"flag_dev": "im", "maxlen": 3, "lang": False}
         if tier == "quick":
-            return {"stmts": 2, "flag_dev": 1, "three": False, "maxlen": 3, "full4": False}
-        return {"stmts": 2, "flag_dev": 2, "three": True, "maxlen": 4, "full4": False}
+            return {"flag_dev": 1, "maxlen": 3, "lang": True}
+        return {"flag_dev": 2, "maxlen": 4, "lang": True}
 
     def cases(self, tier, seed):
         pl = self.plan(tier)
-        pool = rule_pool()
-        for n in range(1, pl["stmts"] + 1):
-            for lk in programs(n, pool, pl["flag_dev"], True):
-                yield {"lk": lk, "maxlen": pl["maxlen"], "seed": seed}
-        if pl["three"]:
-            for lk in programs(3, reduced_pool(), 1, False):
-                yield {"lk": lk, "maxlen": 3, "seed": seed}
+        pool = rule_pool() if self.nstmt <= 2 else reduced_pool()
+        for lk in programs(self.nstmt, pool, pl["flag_dev"], pl["lang"]):
+            yield {"lk": lk, "maxlen": pl["maxlen"], "seed": seed}
 
     def bounds(self, tier, seed):
         pl = self.plan(tier)
-        return {"statements": pl["stmts"], "three_statement_reduced_pool": pl["three"], "pool": len(rule_pool()), "reduced_pool": len(reduced_pool()),
-                "string_length": pl["maxlen"], "flag_deviations": pl["flag_dev"], "seed_role": "chooses the unmentioned base glyph added to each program's alphabet"}
+        return {"statements": self.nstmt, "pool": len(rule_pool() if self.nstmt <= 2 else reduced_pool()),
+                "string_length": pl["maxlen"], "flag_deviations": pl["flag_dev"], "language_scopes": pl["lang"],
+                "seed_role": "chooses the unmentioned base glyph added to each program's alphabet"}
 
     def check(self, case, rec):
         prog = make_program(case["lk"])
@@ -968,7 +1034,7 @@ class ShapeUnit(Unit):
                     if bad <= 2:
                         kind = "glyphs" if [x[0] for x in got] != [x[0] for x in e] else "positions"
                         rec.violation(
-                            "shape:%s:%s:%s%s" % (fams_key(prog), "+".join(l["flagname"] for l in prog["lookups"]), kind, ":differential" if differential else ""),
+                            "shape:%s%s:%s:%s%s" % (fams_key(prog), "".join("~%s" % t for t in traits(prog)), "+".join(l["flagname"] for l in prog["lookups"]), kind, ":differential" if differential else ""),
                             "spelling %s, string %r lang=%s alt=%d: HarfBuzz on compiled tables != %s\n%s%s" % (spname, k[2], k[0], k[1], what, text, ("--- other spelling:\n" + first[1]) if differential else ""),
                             observed=names(got, order), expected=names(e, order))
         rec.trace()
@@ -1018,6 +1084,8 @@ class ShapeUnit(Unit):
                         rec.witness("context format %d" % st.Format)
                     if cn == "PairPos" and st.Format == 2:
                         rec.witness("class pair subtable")
+                if sum(1 for st in lk.SubTable if type(st).__name__ == "PairPos" and st.Format == 2) > 1:
+                    rec.witness("explicit subtable break")
 
 
 def names(res, order):
@@ -1266,8 +1334,9 @@ class FixedPointCorpus(Unit):
             if not indata:
                 rec.witness("file outside feaLib/data")
             for t in r[3:].split(","):
-                rec.witness(t + " compared")
+                if t:
+                    rec.witness(t + " compared")
 
 
 def units():
-    return [ShapeUnit(), FixedPointGenerated(), FixedPointCorpus()]
+    return [ShapeUnit(1), ShapeUnit(2), ShapeUnit(3), FixedPointGenerated(), FixedPointCorpus()]
